@@ -234,8 +234,12 @@ func genC17(r *simrt.Rand, tier string) *simrt.Plan {
 		case 6:
 			filt := g.filterJSON(0.3)
 			f2 := g.field("set", "mutex")
+			lim, mode := int64(r.Intn(3)), int64(0)
+			if r.Bool(0.3) {
+				lim, mode = int64(1+r.Intn(3)), 3 // limit= on the first child
+			}
 			for nd := 0; nd < nodes; nd++ {
-				ops = append(ops, simrt.Op{K: "groupby", S: []string{g.index, fs.name, f2.name, filt}, I: []int64{int64(nd), int64(r.Intn(3)), 0, 0}})
+				ops = append(ops, simrt.Op{K: "groupby", S: []string{g.index, fs.name, f2.name, filt}, I: []int64{int64(nd), lim, 0, mode}})
 			}
 		default:
 			ids := []int64{g.row()}
